@@ -51,6 +51,8 @@ def jsonable(x, depth=0):
     """Compact JSON-safe rendering of case descriptors / observed values."""
     if depth > 6:
         return "…"
+    if isinstance(x, int) and not isinstance(x, bool) and x.bit_length() > 4000:
+        return f"<{x.bit_length()}-bit integer, low 64 bits {x % 2 ** 64}>"        # python will not print it (int max str digits)
     if x is None or isinstance(x, (bool, int, str)):
         return x
     if isinstance(x, float):
@@ -326,6 +328,8 @@ def _arg_state(v, depth=0):
         return (type(v).__name__,) + tuple(_arg_state(x, depth + 1) for x in v)
     if isinstance(v, dict) and depth < 2:
         return ("dict",) + tuple((k, _arg_state(x, depth + 1)) for k, x in sorted(v.items(), key=lambda kv: str(kv[0])))
+    if isinstance(v, int) and not isinstance(v, bool) and v.bit_length() > 4000:
+        return ("bigint", v.bit_length(), hash(v))
     if isinstance(v, (int, float, complex, str, bool, type(None), np.generic)):
         return ("v", repr(v))
     return ("obj", type(v).__name__)
